@@ -169,4 +169,79 @@ Section SpecBlobsUnwrap.
                 header pw (be_bytes 4 i) ptk s n pre Ls (be_bytes_length 4 i) Ln Hpre) as (blob & Hw & Hu & _).
     rewrite (pwA_is_spec O ver z header pw ptk s i n Hi Hz) in Hw. injection Hw as <-. exact Hu.
   Qed.
+
+  (* Argon2id family (k2, k4 on the RustCrypto backends; k4 on libsodium with one lane): whenever the specification
+     produces a blob at all (i.e. Argon2id accepts the parameters), the backend unwraps it to the wrapped key *)
+  Theorem spec_pwB_blob_unwraps ver header pw ptk s mem time para n blob :
+    (mem < 2 ^ 64)%N -> (time < 2 ^ 32)%N -> (para < 2 ^ 32)%N ->
+    (mem mod 1024 = 0)%N -> (mem / 1024 < 2 ^ 32)%N -> length s = 16 -> length n = 24 ->
+    spec_pwB O (ver ++ header) pw ptk s mem time para n = Some blob ->
+    pw_unwrap (pwB O ver (v4_prekey O)) header pw blob = Ok ptk.
+  Proof.
+    intros Hm Ht Hp Hmod Hkib Ls Ln Hspec.
+    pose proof (v4_pw_is_spec O ver header pw ptk s mem time para n blob Hm Ht Hp Hmod Hkib Hspec) as Hw.
+    assert (Lp : length (be_bytes 8 mem ++ be_bytes 4 time ++ be_bytes 4 para) = 16)
+      by (rewrite !app_length, !be_bytes_length; reflexivity).
+    assert (Hpre : exists pre, pw_prekey (pwB O ver (v4_prekey O)) pw s (be_bytes 8 mem ++ be_bytes 4 time ++ be_bytes 4 para) = Ok pre).
+    { unfold pw_wrap in Hw. destruct (pw_prekey (pwB O ver (v4_prekey O)) pw s (be_bytes 8 mem ++ be_bytes 4 time ++ be_bytes 4 para)) as [pre| |];
+        cbn [bind] in Hw; try discriminate. exists pre; reflexivity. }
+    destruct Hpre as (pre & Hpre).
+    destruct (pw_roundtrip (pwB O ver (v4_prekey O)) (pwB_ks_len O L ver (v4_prekey O)) (pwB_mac_len O L ver (v4_prekey O))
+                header pw (be_bytes 8 mem ++ be_bytes 4 time ++ be_bytes 4 para) ptk s n pre Ls Lp Ln Hpre) as (blob' & Hw' & Hu & _).
+    rewrite Hw in Hw'. injection Hw' as <-. exact Hu.
+  Qed.
+
+  Theorem spec_pwB_blob_unwraps_sodium header pw ptk s mem time n blob :
+    (mem < 2 ^ 64)%N -> (time < 2 ^ 32)%N -> length s = 16 -> length n = 24 ->
+    spec_pwB O (str "k4" ++ header) pw ptk s mem time 1 n = Some blob ->
+    pw_unwrap (na_pw O) header pw blob = Ok ptk.
+  Proof.
+    intros Hm Ht Ls Ln Hspec.
+    pose proof (na_pw_is_spec O header pw ptk s mem time n blob Hm Ht Hspec) as Hw.
+    assert (Lp : length (be_bytes 8 mem ++ be_bytes 4 time ++ be_bytes 4 1) = 16)
+      by (rewrite !app_length, !be_bytes_length; reflexivity).
+    assert (Hpre : exists pre, pw_prekey (na_pw O) pw s (be_bytes 8 mem ++ be_bytes 4 time ++ be_bytes 4 1) = Ok pre).
+    { unfold pw_wrap in Hw. destruct (pw_prekey (na_pw O) pw s (be_bytes 8 mem ++ be_bytes 4 time ++ be_bytes 4 1)) as [pre| |];
+        cbn [bind] in Hw; try discriminate. exists pre; reflexivity. }
+    destruct Hpre as (pre & Hpre).
+    destruct (pw_roundtrip (na_pw O) (pwB_ks_len O L (str "k4") (na_prekey O)) (pwB_mac_len O L (str "k4") (na_prekey O))
+                header pw (be_bytes 8 mem ++ be_bytes 4 time ++ be_bytes 4 1) ptk s n pre Ls Lp Ln Hpre) as (blob' & Hw' & Hu & _).
+    rewrite Hw in Hw'. injection Hw' as <-. exact Hu.
+  Qed.
+
+  (* seal (PKE), P-384: every sealed key the specification produces for an honest recipient key unseals on both v3
+     backends (W = counter width, bad = the backend's error kind for an invalid ephemeral key) *)
+  Theorem spec_seal_v3_blob_unseals bad sk pk key esk epk blob :
+    length key = 32 -> p384_pk O sk = Some pk -> p384_pk O esk = Some epk ->
+    spec_seal_v3 O pk key esk = Some blob -> v3_pke_unseal_gen O 128 bad sk blob = Ok key.
+  Proof.
+    intros Lk Hpk Hepk Hspec.
+    destruct (v3_pke_roundtrip_gen O L 128 bad sk pk key esk epk Lk Hpk Hepk) as (blob' & Hs & Hu & _).
+    rewrite (v3_seal_is_spec O pk key esk blob Hspec) in Hs. injection Hs as <-. exact Hu.
+  Qed.
+
+  (* seal, X25519 family: the specification's sealed key for the public key of a seed unseals with that seed's secret key
+     (RustCrypto key object = seed; libsodium = seed || public key, passed as [sk] with its own [xpk_of]) *)
+  Theorem spec_seal_x_blob_unseals ver strict xpk_of sk seed key r :
+    length key = 32 -> take 32 sk = seed -> xpk_of sk = Some (x_of_seed O seed) ->
+    (strict = true -> x_mul O r (x_of_seed O seed) <> zero32) ->
+    x_pke_unseal O ver strict xpk_of sk (spec_seal_x O ver (x_of_seed O seed) key r) = Ok key.
+  Proof.
+    intros Lk Hsk Hx Hz.
+    destruct (x_pke_roundtrip O L ver strict xpk_of sk seed key r Lk Hsk Hx Hz) as (blob & Hs & Hu & _).
+    rewrite (x_seal_is_spec O ver strict (ed_pk O seed) (x_of_seed O seed) key r (x_of_edpk_seed O L seed) Hz) in Hs.
+    injection Hs as <-. exact Hu.
+  Qed.
+
+  (* seal, RSA-KEM (k1) *)
+  Theorem spec_seal_v1_blob_unseals sk key r0 cn blob :
+    length key = 32 -> length r0 = 512 ->
+    rsa_enc O (rsa_pk O sk) (be_val (v1_mask_r r0)) = Some cn ->
+    spec_seal_v1 O (rsa_pk O sk) key (v1_mask_r r0) = Some blob ->
+    v1_pke_unseal O sk blob = Ok key.
+  Proof.
+    intros Lk Lr Henc Hspec.
+    destruct (v1_pke_roundtrip O L sk key r0 cn Lk Lr Henc) as (blob' & Hs & Hu & _).
+    rewrite (v1_seal_is_spec O (rsa_pk O sk) key r0 blob Hspec) in Hs. injection Hs as <-. exact Hu.
+  Qed.
 End SpecBlobsUnwrap.
